@@ -743,6 +743,47 @@ func (x xfsEngine) exec(t xfsTarget, p *Plan) (run *xfsRun) {
 			}
 		}
 		var err error
+		if hadLock && cr.Size%3 == 0 {
+			// 1 unclean shutdown in 3: the recovering Open itself is cut short - the directory is copied right before
+			// its k-th mutating call (moved-aside index files, a half-rebuilt index and truncated segments are what
+			// the next recovery starts from), the Open completes on the abandoned directory and its handle is released
+			gen++
+			snap2 := filepath.Join(t.root, fmt.Sprintf("gen%d", gen))
+			fired2 := false
+			var snapErr2 error
+			tap.arm((cr.Size/3)%30, func(c tapCall) {
+				fired2 = true
+				snapErr2 = copyTreeFS(t.fsys, dir, snap2)
+			})
+			v := guard("Open", func() { err = open() })
+			tap.disarm()
+			if v != nil {
+				return fail(v)
+			}
+			if err != nil {
+				return fail(violf("open-failed-after-crash", "Open after the unclean shutdown at op#%d: %v", i, err))
+			}
+			if snapErr2 != nil {
+				return fail(violf("harness-io", "copying the directory: %v", snapErr2))
+			}
+			if v := guard("Close", func() { err = db.Close() }); v != nil {
+				return fail(v)
+			}
+			if err != nil {
+				return fail(violf("api-error", "Close after the recovery of the unclean shutdown at op#%d: %v", i, err))
+			}
+			db = nil
+			if fired2 {
+				removeTreeFS(t.fsys, dir)
+				dir = snap2
+				tr("crash in the recovery of op#%d before call %d", i, (cr.Size/3)%30)
+				run.faults["unclean_shutdown_inside_recovery"]++
+			} else {
+				// the recovery made fewer mutating calls: the next Open is a clean reopen of the recovered directory
+				hadLock = false
+				tr("recovery of op#%d completed and closed", i)
+			}
+		}
 		if v := guard("Open", func() { err = open() }); v != nil {
 			return fail(v)
 		}
